@@ -58,7 +58,7 @@ PROPS = {
     "C03": dict(modes={"quick": [("path", "quick"), ("roots", "quick"), ("order3", "quick"), ("roots4", "quick"), ("media", "quick")],
                        "thorough": [("path", "thorough"), ("roots", "thorough"), ("order3", "quick"), ("roots4", "quick"), ("media", "quick")]},
                 plan=dict(perms=3, slash=False, entries=["D"], late=True),
-                random={"quick": [("mixed", 200, 16), ("common", 100, 16)], "thorough": [("mixed", 2000, 30), ("common", 800, 24)]},
+                random={"quick": [("mixed", 150, 16), ("common", 70, 16)], "thorough": [("mixed", 2000, 30), ("common", 800, 24)]},
                 # the root pools once more through ServeHTTP (the ServeMux registrations depend on the Add order)
                 twins=[dict(name="servehttp", over={"entries": ["S"]}, modes={"roots", "roots4"})],
                 counter="dominance",
